@@ -438,14 +438,17 @@ def run_file(ctx, chk, lfs, classes_extra=(), case=True):
     rec, rng = ctx.rec, ctx.rng
     entries = [e for lf in lfs for e in lf]
     lrs = [e.lr for e in entries]
-    data, fm = dlis.write_file_safe(rng, lrs)
+    # segments of encrypted records may carry the padding attribute bit: their pad bytes (and the count in the last byte) are part of
+    # the ciphertext, so a reader that cannot decrypt takes nothing off (the last byte of a random body mostly exceeds its length)
+    lay = dict(dlis.random_layout(rng), p_enc_padbit=rng.choice([0.0, 0.5, 1.0]))
+    data, fm = dlis.write_file_safe(rng, lrs, layout=lay)
     if any(fm.records[i].lr.encrypted != lrs[i].encrypted for i in range(len(lrs))):
         # the layout could not hold an encrypted cut and the writer fell back to plain records: random bodies are then not
         # RP66V1 records at all; drop them and write again
         lfs = [[e for e in lf if e.table is not None] for lf in lfs]
         entries = [e for lf in lfs for e in lf]
         lrs = [e.lr for e in entries]
-        data, fm = dlis.write_file_safe(rng, lrs)
+        data, fm = dlis.write_file_safe(rng, lrs, layout=lay)
         rec.add('files_rewritten_without_encrypted')
     feats = set()
     for e in entries:
